@@ -14,8 +14,8 @@ import (
 
 func init() {
 	register(&Property{
-		ID:  "C03",
-		Run: runC03,
+		ID:      "C03",
+		Run:     runC03,
 		Explain: "Static analysis of the closure returned by spnego.SPNEGOKRB5Authenticate and of the token-verification API: every call of the wrapped handler's ServeHTTP is dominated either by a successfully loaded, authenticated session or by AcceptSecContext returning true with status code provably StatusComplete (value-set facts along branch edges), and passes the identity obtained from that same source; the wrapped handler is used nowhere else; every path of the closure that returns without serving passes a responder (401 + WWW-Authenticate: Negotiate, or 500 only from the session-store path), interprocedurally through the helpers' error contracts; every ContextToken.Verify implementation and AcceptSecContext return true only as the forwarded result of another Verify or under the ok ∧ err==nil edge of service.VerifyAPREQ, and the credentials context value is set only there; mechanism OID guards precede verification.",
 		NotDecided: []string{
 			"HTTP bytes as observed by a client; behaviour of the application's session store",
@@ -210,7 +210,7 @@ func runC03(w *World, c *Check) {
 		if len(args) != 3 {
 			continue
 		}
-		idm := regexpFind(`^github\.com/jcmturner/goidentity/v6\.AddToHTTPRequestContext\((.*), r\)$`, args[2])
+		idm := regexpFind(substParams(h, `^github\.com/jcmturner/goidentity/v6\.AddToHTTPRequestContext\((.*), @1\)$`), args[2])
 		switch {
 		case idm != "" && fullMatch(reSess+`#0`, idm):
 			// session branch
